@@ -311,7 +311,8 @@ func ReadAlignment(f io.Reader, chnl chan FastaRecord, cErr chan error, cdone ch
 
 	}
 
-	if len(seqBuffer) > 0 {
+	// the last record, which may be a header without any sequence (a record of length 0, like any other)
+	if !first {
 		if counter > 0 && len(seqBuffer) != width {
 			cErr <- errors.New("different length sequences in input file: is this an alignment?")
 			return
@@ -424,7 +425,8 @@ func ReadEncodeAlignment(f io.Reader, hardGaps bool, chnl chan EncodedFastaRecor
 		}
 	}
 
-	if len(seqBuffer) > 0 {
+	// the last record, which may be a header without any sequence (a record of length 0, like any other)
+	if !first {
 		if counter > 0 && len(seqBuffer) != width {
 			cErr <- errors.New("different length sequences in input file: is this an alignment?")
 			return
@@ -552,7 +554,8 @@ func ReadEncodeScoreAlignment(f io.Reader, hardGaps bool, chnl chan EncodedFasta
 		}
 	}
 
-	if len(seqBuffer) > 0 {
+	// the last record, which may be a header without any sequence (a record of length 0, like any other)
+	if !first {
 		if counter > 0 && len(seqBuffer) != width {
 			cErr <- errors.New("different length sequences in input file: is this an alignment?")
 			return
@@ -664,7 +667,8 @@ func ReadEncodeAlignmentToList(f io.Reader, hardGaps bool) ([]EncodedFastaRecord
 		}
 	}
 
-	if len(seqBuffer) > 0 {
+	// the last record, which may be a header without any sequence (a record of length 0, like any other)
+	if !first {
 		if counter > 0 && len(seqBuffer) != width {
 			return []EncodedFastaRecord{}, errors.New("different length sequences in input file: is this an alignment?")
 		}
